@@ -231,6 +231,9 @@ def corruptions(program, typer, thorough=True):
 
 
 def work(task):
+  # every program of this check compiles in well under a second of CPU time: a call that needs a minute does not terminate
+  # in any practical sense (seeded change c05_r8_1 made VeryConcreteType exponential on shared type nodes)
+  impl.BUDGET[0] = min(impl.BUDGET[0], 30.0)
   if task[0] == 'sig': return work_signature_level(task[1])
   _, thorough, shard, nsh = task
   impl.accelerate_library_parse()
